@@ -645,6 +645,11 @@ fn main() {
     let mut canary = false;
     let mut extra_mods: Vec<String> = vec![];
     let mut no_lib = false;
+    // lenient anchoring: a contract (or a single proof hint) whose anchor is lost is left out and listed in
+    // report.json "unapplied"; the driver treats the affected functions as undecided, never as proved
+    let mut drop_hints: Vec<String> = vec![];
+    let mut drop_contract: Vec<String> = vec![];
+    let mut unapplied = Vec::<serde_json::Value>::new();
     let mut i = 1;
     while i < args.len() {
         match args[i].as_str() {
@@ -656,6 +661,8 @@ fn main() {
             "--canary" => { canary = true; i += 1; }
             "--extra-mod" => { extra_mods.push(args[i + 1].clone()); i += 2; }
             "--no-lib" => { no_lib = true; i += 1; }
+            "--drop-hints" => { drop_hints.push(args[i + 1].clone()); i += 2; }
+            "--drop-contract" => { drop_contract.push(args[i + 1].clone()); i += 2; }
             a => die(&format!("unknown argument {}", a)),
         }
     }
@@ -882,8 +889,23 @@ fn main() {
         // fn contracts
         for fc in &mc.fns {
             let cands: Vec<&FnInfo> = col.fns.iter().filter(|f| f.key == fc.path).collect();
+            let fq0 = format!("{}::{}", module, fc.path);
+            let lost_contract = |why: String, unapplied: &mut Vec<serde_json::Value>| {
+                unapplied.push(json!({"fn": fq0, "kind": "contract", "why": why, "vc": fc.file, "vc_line": fc.line,
+                    "requires": fc.requires.iter().map(|c| c.label.clone()).collect::<Vec<_>>(),
+                    "ensures": fc.ensures.iter().map(|c| c.label.clone()).collect::<Vec<_>>()}));
+            };
+            if drop_contract.iter().any(|d| *d == fq0) {
+                lost_contract("dropped by the driver (the contract text no longer compiles against this function)".into(), &mut unapplied);
+                continue;
+            }
             if cands.len() != 1 {
-                die(&format!("{}:{}: @fn {}: {} matching functions in {} (lost anchor)", fc.file, fc.line, fc.path, cands.len(), fname));
+                lost_contract(format!("@fn {}: {} matching functions in {} (lost anchor)", fc.path, cands.len(), fname), &mut unapplied);
+                continue;
+            }
+            if fc.ret.is_some() && cands[0].ret_ty.is_none() {
+                lost_contract(format!("@ret on {} which has no return type", fc.path), &mut unapplied);
+                continue;
             }
             let f = cands[0];
             let fq = format!("{}::{}", module, fc.path);
@@ -911,7 +933,11 @@ fn main() {
                     ed.ins(f.sig_end, format!("{}\n    ,\n", c.t.text), vc_origin(&c.t, &fq, "ensures", &c.label));
                 }
             }
-            if !fc.prologue.is_empty() {
+            let no_hints = drop_hints.iter().any(|d| *d == fq);
+            if no_hints && (!fc.prologue.is_empty() || !fc.ats.is_empty() || !fc.loops.is_empty()) {
+                unapplied.push(json!({"fn": fq, "kind": "hints", "why": "proof hints dropped by the driver (a hint no longer compiles against this function)", "vc": fc.file, "vc_line": fc.line}));
+            }
+            if !fc.prologue.is_empty() && !no_hints {
                 let (open, _) = f.block.unwrap_or_else(|| die(&format!("{}:{}: @prologue on bodiless {}", fc.file, fc.line, fc.path)));
                 for p in &fc.prologue {
                     ed.ins(open + 1, format!("\n{}\n", p.text), vc_origin(p, &fq, "hint", ""));
@@ -924,6 +950,7 @@ fn main() {
                 ed.ins(open + 1, "\n        assert(false); /*CANARY*/\n".into(), Origin::Vc { file: fc.file.clone(), line: fc.line, func: fq.clone(), kind: "canary".into(), label: "CANARY".into() });
             }
             for at in &fc.ats {
+                if no_hints { break; }
                 let (bs, be) = f.block.unwrap_or_else(|| die(&format!("{}:{}: @at on bodiless {}", fc.file, fc.line, fc.path)));
                 // all occurrences of pat within the body
                 let body = &src.text[bs..be];
@@ -935,12 +962,11 @@ fn main() {
                 }
                 // ignore occurrences inside removed cfg(test) statements
                 let occ: Vec<usize> = occ.into_iter().filter(|o| !f.cfg_test_stmts.iter().any(|(s, e)| o >= s && o < e)).collect();
-                if at.nth == usize::MAX && !occ.is_empty() {
-                    // "last": handled below
-                } else if at.nth >= occ.len() {
-                    die(&format!("{}:{}: @at pattern {:?} (#{}) not found in {} (lost anchor)", at.t.file, at.t.line, at.pat, at.nth, fc.path));
+                if occ.is_empty() || (at.nth != usize::MAX && at.nth >= occ.len()) {
+                    unapplied.push(json!({"fn": fq, "kind": "hint", "why": format!("@at pattern {:?} (#{}) not found (lost anchor)", at.pat, if at.nth == usize::MAX { "last".to_string() } else { at.nth.to_string() }), "vc": at.t.file, "vc_line": at.t.line}));
+                    continue;
                 }
-                let o = if at.nth == usize::MAX { *occ.last().unwrap_or_else(|| die(&format!("{}:{}: @at pattern {:?} not found in {} (lost anchor)", at.t.file, at.t.line, at.pat, fc.path))) } else { occ[at.nth] };
+                let o = if at.nth == usize::MAX { *occ.last().unwrap() } else { occ[at.nth] };
                 // innermost statement containing o
                 let mut best: Option<(usize, usize)> = None;
                 for (s, e) in &f.stmts {
@@ -959,8 +985,10 @@ fn main() {
                 }
             }
             for la in &fc.loops {
+                if no_hints { break; }
                 if la.k >= f.loops.len() {
-                    die(&format!("{}:{}: @loop {} but {} has {} loops (lost anchor)", la.t.file, la.t.line, la.k, fc.path, f.loops.len()));
+                    unapplied.push(json!({"fn": fq, "kind": "hint", "why": format!("@loop {} but the function has {} loops (lost anchor)", la.k, f.loops.len()), "vc": la.t.file, "vc_line": la.t.line}));
+                    continue;
                 }
                 let l = &f.loops[la.k];
                 if let Some(n) = &la.iter_name {
@@ -1097,6 +1125,7 @@ fn main() {
     report.insert("dropped_cfg_test_items".into(), json!(dropped_test_items));
     report.insert("dropped_cfg_test_statements".into(), json!(dropped_test_stmts));
     report.insert("contracts".into(), json!(used_contracts));
+    report.insert("unapplied".into(), json!(unapplied));
     fs::write(meta_dir.join("report.json"), serde_json::to_string_pretty(&report).unwrap()).unwrap();
     fs::write(meta_dir.join("linemap.json"), serde_json::to_string(&serde_json::Value::Object(linemap)).unwrap()).unwrap();
     fs::write(meta_dir.join("fnindex.json"), serde_json::to_string_pretty(&fnindex).unwrap()).unwrap();
